@@ -78,6 +78,15 @@ static inline void readline_init(struct readline *rl, char *buf, size_t len)
 static inline void
 readline_history_init(struct readline *rl, char *hs, int hsize)
 {
+    // a history of 0 lines (or without a buffer) is no history: history_size
+    // is the divisor in readline_history_pointer
+    if (hs == NULL || hsize <= 0)
+    {
+        rl->history_space = NULL;
+        rl->history_size = 0;
+        return;
+    }
+
     rl->history_space = hs;
     rl->history_size = hsize;
     memset(hs, 0, rl->line.cap * hsize);
